@@ -22,7 +22,6 @@ import (
 	"sort"
 	"strings"
 	"time"
-	"unicode"
 
 	"golang.org/x/tools/go/ssa"
 )
@@ -645,7 +644,7 @@ func c09RuneWidth(run *PropRun) {
 	// bidi isolates, the Arabic letter mark, word joiner and invisible operators, interlinear annotation marks, the
 	// Mongolian vowel separator, tag characters.  go-runewidth v0.0.16 gives them width 1 and tcell adds no check of
 	// its own: these are recorded as known findings (see known_findings.txt), one per code point.
-	for _, rg := range [][2]int64{{0x061C, 0x061C}, {0x180E, 0x180E}, {0x2060, 0x2064}, {0x2066, 0x2069}, {0xFFF9, 0xFFFB}, {0xE0001, 0xE0001}, {0xE0020, 0xE0020}, {0xE007F, 0xE007F}} {
+	for _, rg := range [][2]int64{{0x0591, 0x0591}, {0x064B, 0x064B}, {0x093C, 0x093C}, {0x0E31, 0x0E31}, {0x20DD, 0x20DD}, {0x061C, 0x061C}, {0x180E, 0x180E}, {0x2060, 0x2064}, {0x2066, 0x2069}, {0xFFF9, 0xFFFB}, {0xE0001, 0xE0001}, {0xE0020, 0xE0020}, {0xE007F, 0xE007F}} {
 		for r := rg[0]; r <= rg[1]; r++ {
 			runes = append(runes, r)
 		}
@@ -659,8 +658,8 @@ func c09RuneWidth(run *PropRun) {
 	for _, r := range runes {
 		// tcell's cellWidth (verified against its contract: 0 for a rune of category Cf, else RuneWidth) - the Cf
 		// membership is evaluated from the unicode package's own table
-		if isFmt, ferr := c09IsFormat(ev, r); ferr == nil && isFmt && e.FindFunc(modPath+".cellWidth") != nil && e.Specs.Funcs[modPath+".cellWidth"] != nil {
-			g := run.AddObligation(fmt.Sprintf("runewidth[%#x]/zero", r), "table", True(), fmt.Sprintf("cellWidth(%#x) == 0: the rune is in unicode.Cf (unicode.Is evaluated from source), which cellWidth maps to 0", r))
+		if isFmt, ferr := c09IsFormat(ev, r); ferr == nil && isFmt && e.Specs.Funcs[modPath+".cellWidth"] != nil {
+			g := run.AddObligation(fmt.Sprintf("runewidth[%#x]/zero", r), "table", True(), fmt.Sprintf("cellWidth(%#x) == 0: the real cellWidth, evaluated on this rune, returns 0 on every path without consulting go-runewidth (its own category test)", r))
 			_ = g
 			n++
 			continue
@@ -706,14 +705,31 @@ func c09RuneWidth(run *PropRun) {
 	}
 }
 
-// c09IsFormat: membership of r in unicode.Cf, asked of the unicode package linked into the verifier - the same
-// standard library (same toolchain) the library under verification is built with; listed as an assumption.
+// c09IsFormat: does tcell's own cellWidth give the rune width 0 WITHOUT asking go-runewidth?  The real cellWidth is
+// evaluated on the concrete rune; its unicode.Is / unicode.In test is answered for the table(s) the code passes by the
+// unicode package linked into the verifier (same toolchain as the library; listed as an assumption), and the
+// go-runewidth call, if reached, yields an unknown width.  True iff every path returns the constant 0.
 func c09IsFormat(ev *Evaluator, r int64) (bool, error) {
-	if r < 0 || r > 0x10FFFF {
+	e := ev.C.Eng
+	fn := e.FindFunc(modPath + ".cellWidth")
+	if fn == nil {
 		return false, nil
 	}
-	ev.C.Assumed["unicode.Cf as linked into the verifier is the table the library is built with (same Go toolchain)"] = true
-	return unicode.Is(unicode.Cf, rune(r)), nil
+	ev.C.Assumed["the unicode tables linked into the verifier are the ones the library is built with (same Go toolchain)"] = true
+	st := ev.NewState()
+	ev.C.Paths = 0
+	paths, err := ev.Call(st, fn, []Value{NumC(big.NewInt(r), BVSort(32))})
+	ev.C.Paths = 0
+	if err != nil || len(paths) == 0 {
+		return false, err
+	}
+	for _, p := range paths {
+		t, ok := p.Ret.(*Term)
+		if !ok || !isNum(t) || t.Val.Sign() != 0 {
+			return false, nil
+		}
+	}
+	return true, nil
 }
 
 // c17Charsets: BOUNDED stand-in for the assumed encoder contract on the OUTPUT side (C17: "each cell is written as that
